@@ -146,6 +146,10 @@ class World:
                 s = CTransaction.from_tx(t)
             elif how == 'ctor':
                 s = CTransaction(t.vin, t.vout, t.nLockTime, t.nVersion, t.wit)
+            elif how == 'ctor-tuple':
+                s = CTransaction(tuple(t.vin), tuple(t.vout), t.nLockTime, t.nVersion, t.wit)
+            elif how == 'ctor-iter':
+                s = CTransaction(iter(t.vin), (o for o in t.vout), t.nLockTime, t.nVersion, t.wit)
             else:
                 s = CTransaction.deserialize(t.serialize())
             self.pool.append({'kind': 'itx', 'obj': s, 'model': copy.deepcopy(m)})
@@ -190,7 +194,7 @@ class World:
         elif k == 'block':
             es = [self.pick(i) for i in op[1]]
             from ..ref.merkle import merkle_root
-            b = CBlock(vtx=[e['obj'] for e in es], nTime=op[2])
+            b = CBlock(vtx=[e['obj'] for e in es] if op[2] % 2 else tuple(e['obj'] for e in es), nTime=op[2])
             ms = [copy.deepcopy(e['model']) for e in es]
             hdr = {'version': 2, 'prev': bytes(32), 'root': merkle_root([W.txid(x) for x in ms]), 'time': op[2], 'bits': 0, 'nonce': 0}
             self.pool.append({'kind': 'blk', 'obj': b, 'model': dict(hdr, txs=ms)})
@@ -439,7 +443,7 @@ def machine_factory(ctx):
         def wit(self, t, w):
             self.do(['wit', t, w])
 
-        @rule(t=idx, how=st.sampled_from(['from_tx', 'ctor', 'deser']))
+        @rule(t=idx, how=st.sampled_from(['from_tx', 'ctor', 'ctor-tuple', 'ctor-iter', 'deser']))
         def snap(self, t, how):
             self.do(['snap', t, how])
 
@@ -496,7 +500,7 @@ OUT_A = [9, '52']
 CATALOGUE = [['set', 0, 'version', 2], ['set', 0, 'locktime', 7], ['in_set', 0, 0, 'n', 3], ['in_set', 0, 0, 'hash', 'bb' * 32],
              ['in_set', 0, 0, 'seq', 4], ['in_set', 0, 0, 'script', '5152'], ['out_set', 0, 0, 'value', 8], ['out_set', 0, 0, 'script', '53'],
              ['in_add', 0, IN_A], ['in_del', 0, 0], ['out_add', 0, OUT_A], ['out_del', 0, 0], ['wit', 0, [['77']]], ['wit', 0, None],
-             ['snap', 0, 'from_tx'], ['snap', 0, 'ctor'], ['copy', 0], ['copy', 1], ['ids', 0], ['ids', 1], ['sighash', 0, 0, 3],
+             ['snap', 0, 'from_tx'], ['snap', 0, 'ctor'], ['snap', 0, 'ctor-tuple'], ['copy', 0], ['copy', 1], ['ids', 0], ['ids', 1], ['sighash', 0, 0, 3],
              ['bip143', 0, 0, 1], ['block', [0], 5], ['in_set', 1, 0, 'n', 6], ['part', 0, 'in', True, 0], ['part_edit', 0, 6],
              ['in_set', 0, 0, 'prevout', ['cc' * 32, 2]]]
 
